@@ -6,7 +6,9 @@ What surrounds PacketTransmitter in USB3LinkLayer and is modelled here (only leg
     arrives corrupted (generated wire noise) is answered, after all earlier LGOODs, with one LBAD and everything is
     ignored until our LRTY has gone out; at link entry it advertises LGOOD(m) then LCRD A,B,C,D;
   * named mismatches ("mischief"): an LGOOD with a number that is not the next one, an LCRD with a wrong letter, a
-    stray LRTY, a plain link-down; when the DUT raises recovery_required the LTSSM takes the link down in the next
+    stray LRTY, a plain link-down; an LBAD that overtakes the LGOODs still pending for the headers received before
+    the corrupted one (case["overtake"]: those LGOODs, with their correct numbers and in order, then arrive AFTER
+    the LBAD -- at their own pace, or the first of them aimed at the end of the packet the DUT has in flight); when the DUT raises recovery_required the LTSSM takes the link down in the next
     cycle (enable low), as ltssm.py does, and a new link entry with a fresh advertisement follows;
   * our own HeaderPacketReceiver's LRTY path: lrty_pending rises the cycle after retry_required and falls once the
     LRTY command has been transmitted; the Tx arbiter lets it out only between two packets of the DUT (never inside
@@ -81,6 +83,12 @@ class TxPartner:
         self.sent_cmds = []               # dict(t, cmd, sub, tag, epoch)
         self.rx_log = []                  # dict(start, end, seq, dl, verdict)
         self.ack_i = self.crd_i = 0
+        self.lbad_i = 0                   # corrupted headers seen (indexes case["overtake"])
+        self.late = None                  # dict(off, deadline) while LGOODs overtaken by an LBAD are waiting to be aimed
+        self.gap0_once = False
+        self.crd_gate = deque()           # parallel to crds: [serial of the header, LGOODs that must have gone out first]
+        self.good_serial = 0              # intact in-sequence headers seen
+        self.acks_sent = 0                # their LGOODs sent
         # ---- our receiver's LRTY path
         self.lrty = 0
         self.lrty_go = None
@@ -146,12 +154,23 @@ class TxPartner:
         corrupt = self.noise.popleft() if self.noise else 0
         if not (f["crc16_ok"] and f["crc5_ok"]):
             corrupt = 1                               # the DUT itself sent a header with a bad CRC
-        a = cyc(self.case.get("ack_delay", []), self.ack_i, 2)
+        a = cyc(self.case.get("slow_ack") or self.case.get("ack_delay", []), self.ack_i, 2)
         self.ack_i += 1
         if corrupt:
             rec["verdict"] = "bad"
             self.ignoring = True
-            self.acks.append((t + 1 + a, R.LBAD, 0, "lbad"))
+            ov = cyc(self.case.get("overtake", []), self.lbad_i, None)
+            self.lbad_i += 1
+            if ov and ov[0] in ("free", "aim") and self.acks and all(e[3] == "ack" for e in self.acks):
+                # ordering mismatch: the LBAD is sent before the LGOODs that are still pending for earlier headers
+                # (the credit of such a header still follows its LGOOD: a buffer is freed after the acknowledgement)
+                for g in self.crd_gate:
+                    if g[0] > self.good_serial - len(self.acks):
+                        g[1] = g[0]
+                self.acks.appendleft((t + 1 + ov[2], R.LBAD, 0, "lbad-overtaking"))
+                self.late = dict(off=ov[1] if ov[0] == "aim" else None)
+            else:
+                self.acks.append((t + 1 + a, R.LBAD, 0, "lbad"))
         elif f["seq"] == self.expected:
             rec["verdict"] = "good"
             self.expected = (self.expected + 1) & 7
@@ -159,6 +178,8 @@ class TxPartner:
             c = cyc(self.case.get("crd_delay", []), self.crd_i, 3)
             self.crd_i += 1
             self.crds.append((t + 1 + a + c, R.LCRD, self.letter, "credit"))
+            self.good_serial += 1
+            self.crd_gate.append([self.good_serial, 0])
             self.letter = (self.letter + 1) & 3
         else:
             rec["verdict"] = "seq-error"
@@ -185,11 +206,17 @@ class TxPartner:
             return
         best = None
         for q in (self.acks, self.misc, self.crds):
+            if q is self.crds and q and self.crd_gate[0][1] > self.acks_sent:
+                continue
             if q and q[0][0] <= t and (best is None or q[0][0] < best[0][0]):
                 best = q
         if best is None:
             return
         _, cmd, sub, tag = best.popleft()
+        if best is self.crds:
+            self.crd_gate.popleft()
+        elif tag == "ack":
+            self.acks_sent += 1
         if isinstance(tag, tuple):
             if tag[0] == "bad-lgood":
                 sub = (self.last_lgood + 1 + tag[1]) & 7      # never the number the DUT expects next
@@ -198,6 +225,10 @@ class TxPartner:
             tag = tag[0]
         g = cyc(self.case.get("cmd_gap", []), self.cmd_i, 0)
         self.cmd_i += 1
+        if self.gap0_once and best is self.acks:
+            g, self.gap0_once = 0, False
+        if tag == "lbad-overtaking" and self.late is not None:
+            self.late["deadline"] = t + 16
         if cmd == R.LBAD:
             g = max(abs(g), 3) if g >= 0 else -max(abs(g), 3)
         for _ in range(abs(g)):
@@ -214,6 +245,28 @@ class TxPartner:
         if cmd == R.LGOOD and tag == "ack":
             self.last_lgood = sub
 
+    def _aim_late_lgood(self, t):
+        """The first LGOOD an LBAD has overtaken: its command word (second word) is aimed at <last word of the header
+        the DUT has in flight, or starts next> + off; released as it comes when not aimed / nothing is sent in time."""
+        la = self.late
+        if la is None or "deadline" not in la or self.txw:
+            return                                    # the LBAD itself has not gone out yet
+        if la["off"] is None or not self.acks or self.acks[0][3] != "ack" or t > la["deadline"]:
+            self.late = None
+            return
+        head = self.acks[0]
+        if self.rx_state is None:                     # no header of the DUT in flight (as of cycle t-1): hold the LGOOD
+            self.acks[0] = (t + 1,) + head[1:]
+            return
+        need = 5 - (1 + len(self.rx_state))           # words of that header still to be accepted from cycle t on
+        end = t - 1
+        while need > 0:
+            end += 1
+            need -= 1 if self.spat[end % len(self.spat)] else 0
+        self.acks[0] = (max(t, end - 1 + la["off"]),) + head[1:]
+        self.gap0_once = True
+        self.late = None
+
     # ------------------------------------------------------------------ link entry / exit
     def _link_up(self, t):
         self.epoch += 1
@@ -227,6 +280,7 @@ class TxPartner:
         for k in range(4):
             tc += cyc(br, 5 * self.epoch + 1 + k, 0)
             self.crds.append((tc, R.LCRD, k, "adv-credit"))
+            self.crd_gate.append([0, 0])
         self.expected = (m + 1) & 7
         self.last_lgood = m
         self.letter = 0
@@ -238,10 +292,14 @@ class TxPartner:
         self.epochs[-1]["u1"] = t
         self.acks.clear()
         self.crds.clear()
+        self.crd_gate.clear()
+        self.acks_sent = self.good_serial
         self.misc.clear()
         self.txw.clear()
         self.rx_state = None
         self.ignoring = False
+        self.late = None
+        self.gap0_once = False
         self.down_at = None
         self.lrty_go = None
         self.lrty_phase = 0
@@ -293,6 +351,7 @@ class TxPartner:
                 self.ignoring = False
         # ---- partner transmit
         if self.enable:
+            self._aim_late_lgood(t)
             self._partner_send(t)
         word = (1, 0, 0, None)
         if self.txw:
